@@ -332,9 +332,8 @@ def run(tier: str, seed: int) -> int:
                          "distinct when it is a distinct (abstract state, operation) pair executed on the real layer "
                          "and trainers, or a distinct recorded trace event with at least one monitor installed.")
     # extension (what each KIND of monitor records per call, and when): runs beside the lifecycle phases
-    from .monitor_kinds import run_monitor_kinds
-    mk_pool = ThreadPoolExecutor(max_workers=1)
-    mk = mk_pool.submit(run_monitor_kinds, chk, random.Random(seed + 1), not quick)
+    from .. import subcheck
+    mk = subcheck.spawn(PID, "harness.props.monitor_kinds", "phase", tier, seed + 1, "monitor-kinds")
     d1, d2 = (5, 4) if quick else (8, 6)
     FT = (False, True)
     mc = [
@@ -409,10 +408,7 @@ def run(tier: str, seed: int) -> int:
     accepted = [t for t in withstep if not t["hdr"]["waive"]]
     canary_trace(chk, (accepted or withstep)[0], clean=bool(accepted))
     canary_replay(chk, first, rng)
-    try:
-        mk.result()
-    finally:
-        mk_pool.shutdown(wait=True, cancel_futures=True)
+    subcheck.join(chk, mk)
     return chk.finish()
 
 
